@@ -214,7 +214,8 @@ def atMostLoop (prg : Prog) : List Pred → List APred → List APred → Except
     match rulesThatDerive prg p with
     | [r] => do
       let (m, l) ← calcAtMostOnStm r
-      atMostLoop prg ps (am ++ m) (al ++ l)
+      -- fix d2294ea: the rule bounds `p`, not another predicate of its head
+      atMostLoop prg ps (am ++ m.filter (·.pred == p)) (al ++ l.filter (·.pred == p))
     | _ => atMostLoop prg ps am al
 
 /-- `_calc_at_most(prg)` with `self.input_predicates = inputs` -/
